@@ -1,6 +1,254 @@
-From Coq Require Import ZArith List Bool String.
+(* Property C12 - units are a dimensional algebra over values held in standard units.
+   Only statements, closed by [exact], Examples for non-vacuity, Print Assumptions.
+
+   The operations Units___init__, Units___mul__, Units___truediv__, Units___pow__,
+   Units_sqrt, Units_can_match ... are NOT hand-written: they are the Gallina translation of
+   the current text of /repo/polymath/units.py (coq/gen/Gen_units.v, regenerated on every
+   run).  [Units___pow__ a p2] is a ** (p2/2).  Outcomes: Ok v | Err class | Inexact (a float
+   that is not an integer entered a triple: outside the exact model) | OutOfFuel (gcd loop
+   bound FUEL = 4000 reached).  wf u: numerator and denominator positive and coprime.
+   qv u: the rational numer/denom; pik u: the exponent of pi; uexp u: the three exponents.
+   U = unbounded; B = bounded-exhaustive inside Coq (vm_compute), bound in the statement. *)
+From Coq Require Import ZArith List Bool String QArith Qpower.
 From PM Require Import C12Pre.
 From PMGen Require Import Gen_units.
 From PM Require Import C12Model C12Lemmas.
-Theorem C12_stub : True. Proof. exact stub. Qed.
-Print Assumptions C12_stub.
+Import ListNotations.
+Open Scope Z_scope.
+
+(* U: gcd as translated (while-loop with fuel) is Z.gcd for a positive second argument *)
+Theorem C12_gcd : forall fuel a b g, 0 < b -> gcd fuel a b = Ok g -> g = Z.gcd a b.
+Proof. exact gcd_pos_spec. Qed.
+
+(* U: Units.__init__ on integers with a positive denominator returns the gcd-reduced triple,
+   keeps the exponents, and does not take the float-fallback branch; the result is well
+   formed and denotes the same rational *)
+Theorem C12_norm : forall e n d k u, 0 < d -> Units___init__ e (n, d, k) = Ok u ->
+  uexp u = e /\ utrip u = (n / Z.gcd n d, d / Z.gcd n d, k).
+Proof. exact init_spec. Qed.
+Theorem C12_norm_no_fallback : forall e n d k b, 0 < d ->
+  Units_init_fallback e (n, d, k) = Ok b -> b = false.
+Proof. exact init_fallback_false. Qed.
+Theorem C12_norm_sem : forall e n d k u, 0 < n -> 0 < d -> Units___init__ e (n, d, k) = Ok u ->
+  wf u /\ uexp u = e /\ pik u = k /\ (qv u == n # Z.to_pos d)%Q.
+Proof. exact init_sem. Qed.
+Theorem C12_norm_total : forall e n d k, 0 < d ->
+  Units___init__ e (n, d, k) = OutOfFuel \/ exists u, Units___init__ e (n, d, k) = Ok u.
+Proof. exact init_total. Qed.
+
+(* U: well-formed records are canonical: equal meaning, equal record (hence Units.__eq__,
+   which compares exponents and the float made from the triple) *)
+Theorem C12_canonical : forall u v, wf u -> wf v -> uexp u = uexp v -> pik u = pik v ->
+  (qv u == qv v)%Q -> u = v.
+Proof. exact canon. Qed.
+
+(* U: * / ** sqrt are homomorphisms on (exponents, rational, pi exponent) and preserve wf *)
+Theorem C12_mul_sem : forall a b c, wf a -> wf b -> Units___mul__ a (AUnits b) = Ok c ->
+  wf c /\ uexp c = e_add (uexp a) (uexp b) /\ pik c = pik a + pik b /\ (qv c == qv a * qv b)%Q.
+Proof. exact mul_sem. Qed.
+Theorem C12_div_sem : forall a b c, wf a -> wf b -> Units___truediv__ a (AUnits b) = Ok c ->
+  wf c /\ uexp c = e_sub (uexp a) (uexp b) /\ pik c = pik a - pik b /\ (qv c == qv a / qv b)%Q.
+Proof. exact div_sem. Qed.
+Theorem C12_pow_sem : forall a p c, wf a -> Units___pow__ a (2 * p) = Ok c ->
+  wf c /\ uexp c = e_scale p (uexp a) /\ pik c = p * pik a /\ (qv c == qv a ^ p)%Q.
+Proof. exact pow_sem. Qed.
+Theorem C12_sqrt_sem : forall a c, wf a -> Units_sqrt a = Ok c ->
+  wf c /\ e_scale 2 (uexp c) = uexp a /\ 2 * pik c = pik a /\ (qv c * qv c == qv a)%Q.
+Proof. exact sqrt_sem. Qed.
+Theorem C12_mul_total : forall a b, wf a -> wf b ->
+  Units___mul__ a (AUnits b) = OutOfFuel \/ exists c, Units___mul__ a (AUnits b) = Ok c.
+Proof. exact mul_total. Qed.
+Theorem C12_div_total : forall a b, wf a -> wf b ->
+  Units___truediv__ a (AUnits b) = OutOfFuel \/ exists c, Units___truediv__ a (AUnits b) = Ok c.
+Proof. exact div_total. Qed.
+
+(* U: the consistency laws *)
+Theorem C12_mul_comm : forall a b, Units___mul__ a (AUnits b) = Units___mul__ b (AUnits a).
+Proof. exact mul_comm. Qed.
+Theorem C12_mul_assoc : forall a b c ab bc l r, wf a -> wf b -> wf c ->
+  Units___mul__ a (AUnits b) = Ok ab -> Units___mul__ ab (AUnits c) = Ok l ->
+  Units___mul__ b (AUnits c) = Ok bc -> Units___mul__ a (AUnits bc) = Ok r -> l = r.
+Proof. exact mul_assoc. Qed.
+Theorem C12_div_cancel : forall a b ab r, wf a -> wf b ->
+  Units___mul__ a (AUnits b) = Ok ab -> Units___truediv__ ab (AUnits b) = Ok r -> r = a.
+Proof. exact div_cancel. Qed.
+Theorem C12_pow_add : forall a p q ap aq l r, wf a ->
+  Units___pow__ a (2 * p) = Ok ap -> Units___pow__ a (2 * q) = Ok aq ->
+  Units___mul__ ap (AUnits aq) = Ok l -> Units___pow__ a (2 * (p + q)) = Ok r -> l = r.
+Proof. exact pow_add. Qed.
+Theorem C12_sqrt_sq : forall a aa r, wf a ->
+  Units___mul__ a (AUnits a) = Ok aa -> Units_sqrt aa = Ok r -> r = a.
+Proof. exact sqrt_sq. Qed.
+(* ... and sqrt of a square is never refused (no ValueError, no float): it is exactly the
+   constructor applied to the roots *)
+Theorem C12_sqrt_of_square : forall x y z n d k, 0 < n -> 0 < d ->
+  Units_sqrt (mkU (2 * x, 2 * y, 2 * z) (n * n, d * d, 2 * k)) = Units___init__ (x, y, z) (n, d, k).
+Proof. exact sqrt_of_square_total. Qed.
+(* same-dimension conversion: the exact rational ratio times pi^(difference), dimensionless *)
+Theorem C12_convert_exact : forall a b c, wf a -> wf b -> Units___truediv__ a (AUnits b) = Ok c ->
+  (qv c == qv a / qv b)%Q /\ pik c = pik a - pik b /\ (uexp a = uexp b -> uexp c = (0, 0, 0)).
+Proof. exact convert_exact. Qed.
+Theorem C12_copy : forall a r, wf a -> Units_copy a = Ok r -> r = a.
+Proof. exact copy_id. Qed.
+
+(* U: can_match / do_match / is_angle / is_unitless, None included *)
+Theorem C12_match_rules :
+  (forall b, Units_can_match None b = Ok true) /\
+  (forall a, Units_can_match a None = Ok true) /\
+  (forall a b, Units_can_match (Some a) (Some b) = Ok (z3_eqb (uexp a) (uexp b))) /\
+  (forall a b, Units_do_match a b = Ok (z3_eqb (oexp a) (oexp b))) /\
+  (forall a, Units_is_angle a = Ok (z3_eqb (oexp a) (0, 0, 0) || z3_eqb (oexp a) (0, 0, 1))) /\
+  (forall a, Units_is_unitless a = Ok (z3_eqb (oexp a) (0, 0, 0))).
+Proof. exact match_rules. Qed.
+Theorem C12_z3_eqb : forall a b, z3_eqb a b = true <-> a = b.
+Proof. exact z3_eqb_eq. Qed.
+
+(* U: object-level rules (hand-written rule table of C12Model.v over the regenerated helpers) *)
+Theorem C12_object_rules_compat : forall a b,
+  obj_rule OAdd a b = (if compatible a b then obs_of_ounits (Ok (or_units a b)) else OErr EValue) /\
+  obj_rule OOrder a b = (if compatible a b then ONone else OErr EValue) /\
+  obj_rule OAtan2 a b = (if compatible a b then ONone else OErr EValue) /\
+  obj_rule OEq a b = OBool (compatible a b).
+Proof. exact object_rules_compat. Qed.
+Theorem C12_object_rules_fn : forall a,
+  obj_rule OAngleFn a None =
+    (if z3_eqb (oexp a) (0, 0, 0) || z3_eqb (oexp a) (0, 0, 1) then ONone else OErr EValue) /\
+  obj_rule OPureFn a None = (if z3_eqb (oexp a) (0, 0, 0) then ONone else OErr EValue) /\
+  obj_rule OKeep a None = obs_of_ounits (Ok a) /\
+  obj_rule ONoUnits a None = (match a with Some _ => OErr EType | None => ONone end).
+Proof. exact object_rules_fn. Qed.
+Theorem C12_object_rules_mul : forall a b,
+  obj_rule OMul (Some a) (Some b) = obs_of_units (Units___mul__ a (AUnits b)) /\
+  obj_rule ODiv (Some a) (Some b) = obs_of_units (Units___truediv__ a (AUnits b)) /\
+  obj_rule OMul None None = ONone /\ obj_rule ODiv None None = ONone /\
+  obj_rule ODiv None (Some b) = obs_of_units (Units___pow__ b (2 * -1)) /\
+  (forall p2, p2 <> 0 -> obj_rule (OPow p2) (Some a) None = obs_of_units (Units___pow__ a p2)) /\
+  (forall p2, obj_rule (OPow p2) None None = ONone) /\
+  obj_rule OSqrt (Some a) None = obs_of_units (Units_sqrt a) /\
+  obj_rule OSqrt None None = ONone.
+Proof. exact object_rules_mul. Qed.
+Theorem C12_object_rules_mul_none : forall a o, wf a ->
+  (obj_rule OMul (Some a) None = o \/ obj_rule OMul None (Some a) = o \/ obj_rule ODiv (Some a) None = o) ->
+  o = OUnits (uexp a) (utrip a) \/ o = OFuel.
+Proof. exact object_rules_mul_none. Qed.
+
+(* U (by construction of the value model; tied to the code by the direct oracle): attaching,
+   changing, removing units leaves stored values and derivatives untouched *)
+Theorem C12_values_untouched : forall u q vals der,
+  vvals (set_units_v u q) = vvals q /\ vderiv (set_units_v u q) = vderiv q /\
+  vvals (without_units_v q) = vvals q /\ vderiv (without_units_v q) = vderiv q /\
+  vvals (ctor_v vals der u) = vals /\ vderiv (ctor_v vals der u) = der /\
+  vunits (set_units_v u q) = u /\ vunits (without_units_v q) = None.
+Proof. exact values_untouched. Qed.
+(* U over Q, pi any non-zero number: into_units / from_units are mutually inverse on values
+   and derivatives, and scale both by the same factor *)
+Theorem C12_conversion_inverse : forall pi : Q, ~ (pi == 0)%Q ->
+  forall q, (forall x, vunits q = Some x -> wf x) ->
+    Forall2 Qeq (vvals (from_units_v pi (into_units_v pi q))) (vvals q) /\
+    Forall2 Qeq (vderiv (from_units_v pi (into_units_v pi q))) (vderiv q) /\
+    Forall2 Qeq (vvals (into_units_v pi (from_units_v pi q))) (vvals q) /\
+    Forall2 Qeq (vderiv (into_units_v pi (from_units_v pi q))) (vderiv q) /\
+    vunits (from_units_v pi (into_units_v pi q)) = vunits q.
+Proof. exact conversion_inverse. Qed.
+Theorem C12_conversion_same_factor : forall (pi : Q) q,
+  vvals (into_units_v pi q) = map (Qmult (/ ofactor pi (vunits q))) (vvals q) /\
+  vderiv (into_units_v pi q) = map (Qmult (/ ofactor pi (vunits q))) (vderiv q) /\
+  vvals (from_units_v pi q) = map (Qmult (ofactor pi (vunits q))) (vvals q) /\
+  vderiv (from_units_v pi q) = map (Qmult (ofactor pi (vunits q))) (vderiv q).
+Proof. exact conversion_same_factor. Qed.
+
+(* B (the whole regenerated table): every named unit evaluates, is normalised and equals the
+   literal in the source; U: everything built from the table by * / ** sqrt is well formed *)
+Theorem C12_named_table : forallb named_ok named_table = true.
+Proof. exact named_all_ok. Qed.
+Theorem C12_named_wf : forall n u, named_value n = Ok u -> wf u.
+Proof. exact named_wf. Qed.
+Theorem C12_uexpr_wf : forall x u, ueval x = Ok u -> wf u.
+Proof. exact ueval_wf. Qed.
+
+(* B: all pairs of named units: a*b == b*a, a*b/b == a, a/b*b == a, all evaluated (no
+   OutOfFuel); all triples: (a*b)*c == a*(b*c); every named unit with all powers p,q in -3..3:
+   a**p * a**q == a**(p+q), sqrt(a*a) == a, (a**2)**0.5 == a *)
+Theorem C12_B_pairs : forall a b, In a named_units_list -> In b named_units_list -> pair_ok a b = true.
+Proof. exact B_pairs_all. Qed.
+Theorem C12_B_triples : forall a b c, In a named_units_list -> In b named_units_list ->
+  In c named_units_list -> triple_ok a b c = true.
+Proof. exact B_triples_all. Qed.
+Theorem C12_B_powers : forall a, In a named_units_list -> pow_ok a = true.
+Proof. exact B_powers_all. Qed.
+Theorem C12_B_named_count : List.length named_units_list = List.length named_table.
+Proof. exact B_named_count. Qed.
+
+(* alias facts computed from the text of the static helpers: no attribute of an object that
+   may be a caller's argument is assigned (the Units.KM renaming defect makes this false) *)
+Theorem C12_alias_facts :
+  attr_assign_guarded_mul_units = true /\ attr_assign_guarded_div_units = true /\
+  attr_assign_guarded_sqrt_units = true /\ attr_assign_guarded_units_power = true.
+Proof. exact alias_facts. Qed.
+
+(* ---- non-vacuity ---- *)
+Definition uM := mkU (1, 0, 0) (1, 1000, 0).
+Definition uDEG := mkU (0, 0, 1) (1, 180, 1).
+Example ex_wf : wf uM /\ wf uDEG.
+Proof. split; apply wfb_wf; reflexivity. Qed.
+Example ex_named : named_value "M"%string = Ok uM /\ named_value "DEG"%string = Ok uDEG.
+Proof. split; vm_compute; reflexivity. Qed.
+Example ex_norm : Units___init__ (1, -1, 0) (10, 4, 1) = Ok (mkU (1, -1, 0) (5, 2, 1)).
+Proof. vm_compute. reflexivity. Qed.
+Example ex_mul_div : exists ab, Units___mul__ uM (AUnits uDEG) = Ok ab /\
+  Units___truediv__ ab (AUnits uDEG) = Ok uM /\ utrip ab = (1, 180000, 1).
+Proof. eexists. repeat split; vm_compute; reflexivity. Qed.
+Example ex_pow : Units___pow__ uM (2 * -2) = Ok (mkU (-2, 0, 0) (1000000, 1, 0))
+  /\ Units___pow__ (mkU (2, 0, 0) (1, 1000000, 0)) 1 = Ok uM
+  /\ Units___pow__ uM 1 = Err EValue.
+Proof. repeat split; vm_compute; reflexivity. Qed.
+Example ex_sqrt : Units_sqrt (mkU (2, 0, 0) (1, 1000000, 0)) = Ok uM
+  /\ Units_sqrt uM = Err EValue
+  /\ Units_sqrt (mkU (2, 0, 0) (1, 1000, 0)) = Inexact.
+Proof. repeat split; vm_compute; reflexivity. Qed.
+Example ex_obj : obj_rule OAdd (Some uM) (Some uDEG) = OErr EValue
+  /\ obj_rule OAdd (Some uM) None = OUnits (1, 0, 0) (1, 1000, 0)
+  /\ obj_rule OEq (Some uM) (Some uDEG) = OBool false
+  /\ obj_rule OAngleFn (Some uDEG) None = ONone /\ obj_rule OAngleFn (Some uM) None = OErr EValue
+  /\ obj_rule OPureFn (Some uDEG) None = OErr EValue.
+Proof. repeat split; vm_compute; reflexivity. Qed.
+Example ex_lists : (10 <=? List.length named_units_list)%nat = true /\ (10 <=? List.length distinct_units)%nat = true.
+Proof. split; vm_compute; reflexivity. Qed.
+
+Print Assumptions C12_gcd.
+Print Assumptions C12_norm.
+Print Assumptions C12_norm_no_fallback.
+Print Assumptions C12_norm_sem.
+Print Assumptions C12_norm_total.
+Print Assumptions C12_canonical.
+Print Assumptions C12_mul_sem.
+Print Assumptions C12_div_sem.
+Print Assumptions C12_pow_sem.
+Print Assumptions C12_sqrt_sem.
+Print Assumptions C12_mul_total.
+Print Assumptions C12_div_total.
+Print Assumptions C12_mul_comm.
+Print Assumptions C12_mul_assoc.
+Print Assumptions C12_div_cancel.
+Print Assumptions C12_pow_add.
+Print Assumptions C12_sqrt_sq.
+Print Assumptions C12_sqrt_of_square.
+Print Assumptions C12_convert_exact.
+Print Assumptions C12_copy.
+Print Assumptions C12_match_rules.
+Print Assumptions C12_z3_eqb.
+Print Assumptions C12_object_rules_compat.
+Print Assumptions C12_object_rules_fn.
+Print Assumptions C12_object_rules_mul.
+Print Assumptions C12_object_rules_mul_none.
+Print Assumptions C12_values_untouched.
+Print Assumptions C12_conversion_inverse.
+Print Assumptions C12_conversion_same_factor.
+Print Assumptions C12_named_table.
+Print Assumptions C12_named_wf.
+Print Assumptions C12_uexpr_wf.
+Print Assumptions C12_B_pairs.
+Print Assumptions C12_B_triples.
+Print Assumptions C12_B_powers.
+Print Assumptions C12_B_named_count.
+Print Assumptions C12_alias_facts.
